@@ -271,7 +271,10 @@ MODULE_PROPS = [('qvector::rs_qvector', ['C05', 'C01', 'C04']), ('bitvector::rs_
 
 
 def props_of_module(path, default=('C04',)):
-    return next((list(p) for pre, p in MODULE_PROPS if path.startswith(pre)), list(default))
+    out = next((list(p) for pre, p in MODULE_PROPS if path.startswith(pre)), list(default))
+    if 'Iterator::' in path or 'IntoIterator::' in path:
+        out = out + ['C12']    # iterator implementations also belong to the iterator property
+    return out
 
 
 def _w5_narrow_then_shift(FA, out):
@@ -375,6 +378,40 @@ def rule_W(FA):
                                                 'result of generic type %s is rebuilt from a fixed-width %s accumulator: symbols wider than %s cannot be returned' % (
                                                     fn['gargs'][0], fn['gargs'][1], fn['gargs'][1]), props,
                                                 sample={'from': fn['gargs'][1], 'value': show(arg)[:80]}))
+                # w3 (second form): `(acc << 2 | digit).as_()` -- the whole symbol assembled in a machine word and converted to T at the end
+                if t['k'] == 'call' and 'fn' in t['f'] and in_tree:
+                    fn = t['f']['fn']
+                    ga = fn.get('gargs', [])
+                    if fn['name'] == 'as_' and fn['trait'].endswith('AsPrimitive') and len(ga) == 2 and ga[1] in tps and ga[0] in FIXED and t['args']:
+                        arg = norm(F.operand_term(t['args'][0]))
+
+                        def mir_width(o, depth=0):
+                            """bits of the operand judged by the MIR types it was widened from (`digit as usize` is 8 bits wide)"""
+                            if 'p' not in o or o['p']['proj'] or depth > 6:
+                                return INT_W.get(F.locals[o['p']['l']], 64) if 'p' in o and not o['p']['proj'] else 64
+                            l = o['p']['l']
+                            ds = [d for d in F.defs.get(l, []) if d[0] in F.reach]
+                            if len(ds) != 1:
+                                return INT_W.get(F.locals[l], 64)
+                            if ds[0][1] == 'call':
+                                return INT_W.get(F.locals[l], 64) if F.locals[l] != 'bool' else 1
+                            rv = ds[0][2]
+                            if rv['k'] == 'cast':
+                                return min(INT_W.get(rv['from'], 1 if rv['from'] == 'bool' else 64), mir_width(rv['a'], depth + 1))
+                            if rv['k'] == 'use':
+                                return mir_width(rv['a'], depth + 1)
+                            return INT_W.get(F.locals[l], 64)
+                        core_arg = strip_casts(arg)
+                        assembled = core_arg[:1] == ('bin',) and core_arg[1] in ('BitOr', 'Shl', 'Add') and any(
+                            isinstance(x, tuple) and x[:2] == ('bin', 'Shl') for x in subterms(core_arg))
+                        if mir_width(t['args'][0]) > 16 and has_unknown(arg) and assembled:
+                            key = 'R-W|w3|%s%s' % (fn_key(f), spec_key(spec))
+                            if key not in seen:
+                                seen.add(key)
+                                out.append(Inst('R-W', key, 'violation', t['line'],
+                                                'result of generic type %s is converted from a %s accumulator (`%s`): symbols wider than %s cannot be returned' % (
+                                                    ga[1], ga[0], show(arg)[:60], ga[0]), props,
+                                                sample={'from': ga[0], 'value': show(arg)[:80]}))
                 # w4: a fixed-size array indexed by the level counter must have room for every level of the widest element type
                 if t['k'] == 'assert' and 'bounds' in t.get('msg', {}) and in_tree:
                     ln = t['msg']['len']
